@@ -484,6 +484,12 @@ def run_miri(eng, lines, seed, prefer=()):
 def check(prop, tier, seed, params):
     t0 = time.time()
     notes = []
+    mark = os.path.join(ROOT, "seeded", "IN_FLIGHT")
+    if os.path.exists(mark) and not os.environ.get("GA_SEEDTEST"):
+        # an interrupted tools/seedtest.sh: the tree is decided as it stands (a seeded change left in it IS a violation),
+        # but say where it came from
+        print("NOTE seed-in-flight marker present (%s): /repo may still carry that seeded change; tools/seedrecover.sh undoes it"
+              % open(mark).read().strip())
     status, xout = run_extract()
     degraded = sorted(k for k, v in status.items() if v["status"] != "ok")
     for line in xout.split("\n"):
